@@ -16,6 +16,12 @@ pub struct Context<'a, CT> {
     /// nameserver lookups can revisit the same questions along factorially
     /// many different paths without ever going deeper than the limit.
     question_budget: usize,
+    /// Addresses of nameservers carried by the referrals followed so far in
+    /// this request.  They are also put in the cache, but the cache does not
+    /// give out a record with less than a second to live (or with a TTL of
+    /// zero): a nameserver whose address is only known from such glue could
+    /// not be reached otherwise.
+    glue: Vec<ResourceRecord>,
     metrics: Metrics,
 }
 
@@ -27,6 +33,7 @@ impl<'a, CT> Context<'a, CT> {
             cache,
             question_stack: Vec::with_capacity(recursion_limit),
             question_budget: recursion_limit.saturating_mul(recursion_limit),
+            glue: Vec::new(),
             metrics: Metrics::new(),
         }
     }
@@ -54,5 +61,22 @@ impl<'a, CT> Context<'a, CT> {
 
     pub fn pop_question(&mut self) {
         self.question_stack.pop();
+    }
+
+    /// Keep the address records of a referral for the rest of this request.
+    pub fn remember_glue(&mut self, rrs: &[ResourceRecord]) {
+        for rr in rrs {
+            if matches!(
+                rr.rtype_with_data.rtype(),
+                RecordType::A | RecordType::AAAA
+            ) && !self.glue.contains(rr)
+            {
+                self.glue.push(rr.clone());
+            }
+        }
+    }
+
+    pub fn glue(&self) -> &[ResourceRecord] {
+        &self.glue
     }
 }
